@@ -32,7 +32,7 @@ against the checks with `tools/mutcheck.sh <patch> <ID>…` (scratch worktree + 
 is never touched).
 
 Rounds 3-5 told the authors that a large randomized differential test of the obvious paths exists (round 3: aim at rare
-options, state that survives calls, real-process timing, loop boundaries; round 5: act through helper modules the
+options, state that survives calls, real-process timing, loop boundaries; rounds 5 and 5b: act through helper modules the
 property's record does not name, or through two cooperating edits in two files).
 
 Result: **all {n} are caught (exit 1 with a concrete failing input as the replay), {n} - 1 of them by the check of the
